@@ -79,7 +79,9 @@ def glue(H):
         H.prove(len(res) == 2 and [c for c, _ in res] == ["M", "L"], "glue.returns_engine_output")
 
 
-_DASH = {"none": [], "": [], "5": [5.0, 5.0], "5,3": [5.0, 3.0], "5 3 2": [5.0, 3.0, 2.0, 5.0, 3.0, 2.0], "5, 3": [5.0, 3.0], "1,2,3,4": [1.0, 2.0, 3.0, 4.0], "0.5 1.5 2.5 3.5 4.5": [0.5, 1.5, 2.5, 3.5, 4.5] * 2}
+_DASH = {"none": [], "": [], "5": [5.0, 5.0], "5,3": [5.0, 3.0], "5 3 2": [5.0, 3.0, 2.0, 5.0, 3.0, 2.0], "5, 3": [5.0, 3.0], "1,2,3,4": [1.0, 2.0, 3.0, 4.0], "0.5 1.5 2.5 3.5 4.5": [0.5, 1.5, 2.5, 3.5, 4.5] * 2,
+         # a zero-length dash or gap is an entry like any other (SVG 1.1 11.4: only negative values are errors): it keeps its slot and counts for the parity
+         "4 0 2 6": [4.0, 0.0, 2.0, 6.0], "0 3": [0.0, 3.0], "3 0 1": [3.0, 0.0, 1.0, 3.0, 0.0, 1.0]}
 
 
 @obligation(P, "stroke.commands", functions=["svg_types.SVGShape.stroke_commands"])
